@@ -9,6 +9,7 @@
 From MW Require Import PyBase Nodes Builder Flatten BuilderProofs.
 From MW Require Import HeadingFrag HeadingFragProofs.
 From MW Require Import EntityFrag EntityFragProofs.
+From MW Require Import MixFrag MixFragProofs.
 
 Theorem C02_build_total_partial : forall c, wf_code c -> exists t, build (fl_code c) = Ok t.
 Proof. exact build_total_lemma. Qed.
@@ -37,3 +38,8 @@ Theorem C02_entity_fragment_total : forall markers names msize s, exists c, buil
 Proof. intros m n k s. destruct (efrag_end_to_end m n k s) as (c & H & _). now exists c. Qed.
 
 Print Assumptions C02_entity_fragment_total.
+
+Theorem C02_mixed_fragment_total : forall markers names msize md s, exists c, build (mfrag_tokens markers names msize md s) = Ok c.
+Proof. intros m n k d s. destruct (mfrag_end_to_end m n k d s) as (c & H & _). now exists c. Qed.
+
+Print Assumptions C02_mixed_fragment_total.
